@@ -17,6 +17,7 @@ import (
 	"encoding/hex"
 	"encoding/json"
 	"fmt"
+	"log"
 	"os"
 	"path/filepath"
 	"sort"
@@ -65,9 +66,23 @@ func callJA3(rec []byte) (v string, err error, pv any) {
 			pv = x
 		}
 	}()
+	// the binary's -verbose flag only adds log lines: for a quarter of the records (chosen by their bytes, so that a
+	// record is always evaluated the same way) the package logs verbosely, to a logger that does format its arguments
+	verbose := mc.Hash64(string(rec))[0]&3 == 0
+	fingerprint.VerboseLogs = verbose
+	if verbose {
+		fingerprint.Logger = verboseLogger
+	}
 	v, err = fingerprint.JA3Fingerprint(&metadata.Metadata{ClientHelloRecord: rec})
+	fingerprint.VerboseLogs = false
 	return
 }
+
+type countingWriter struct{ n int }
+
+func (w *countingWriter) Write(p []byte) (int, error) { w.n += len(p); return len(p), nil }
+
+var verboseLogger = log.New(&countingWriter{}, "", 0)
 
 type recheck struct {
 	rec  []byte
